@@ -51,6 +51,7 @@ type modEntry struct {
 	id   Term
 	low  Term // non-empty: the whole region of ids >= low (scratch state owned by an object), any heap
 	cond Term // non-empty: the target may be written only when cond holds
+	ghost string // non-empty: a ghost variable (no memory; the caller's contract must list it too)
 }
 
 type loopInfo struct {
